@@ -14,6 +14,9 @@ for name in sorted(os.listdir(d)) if os.path.isdir(d) else []:
     res = ("**quiet** (exit 0%s, %ss)" % (", %d drift line(s)" % len(c.get("drift_lines", [])) if c.get("drift_lines") else "", int(c.get("check_wall_s", 0)))
            if c.get("quiet") else "ALARM (exit %s)" % c.get("check_rc"))
     note = m.get("corrected", "")
+    if m.get("reclassified"):
+        res = "alarm (exit %s) - **and rightly so**" % c.get("check_rc")
+        note = m["reclassified"]
     rows.append("| `%s` | %s | %s | %s | %s |" % (name, prop, m.get("kind", ""), (m.get("summary") or "").replace("|", "/").replace("\n", " ")[:260],
                                               res + ((" - " + note) if note else "")))
 print("| change | property | kind | what it does | result of the property's quick check |")
